@@ -116,6 +116,21 @@ def check_trivial_acceptances(ctx, r):
             ctx.bad("C08.1", f, o.end.ast if o.end.ast is not None else f.node, f"{label}: this input ends in `{o.end.text()}` instead of `return True`")
         else:
             ctx.ok("C08.1", f.qualname, f"{label}: every path for this input returns True before any binding is read")
+    # ... and nothing else is accepted that early: for an ordinary value (leaf type present, not None) no path returns True before the
+    # context is read and the leaves are checked -- whatever other condition (a flag, a cache hit) guards it
+    outs = simulate(g, g.entry, stop, lambda n, a_=mk_atom(False, False): eval_bool(n.ast, a_))
+    early = [o for o in outs if o.end.id not in get_ids and o.end.kind == "return" and isinstance(o.end.ast.value, ast.Constant) and o.end.ast.value.value is True]
+    if early:
+        o = early[0]
+        tests = [n_ for n_ in o.path if getattr(n_, "kind", None) == "test"] if hasattr(o, "path") else []
+        under = f" (under `{short(tests[-1].ast, 60)}`)" if tests else ""
+        if any(isinstance(x, ast.Attribute) and x.attr == "leaftype" for t_ in tests for x in ast.walk(t_.ast)):
+            # a short cut decided by the leaf type itself (`cls.leaftype is Any`: every leaf matches) can be sound
+            raise AnalysisError(f"C08.1: an early acceptance is guarded by a condition on the leaf type{under}; whether every leaf then matches is not decided statically")
+        ctx.bad("C08.1", f, o.end.ast, f"a value that is neither None nor checked against the bare `PyTree` is accepted before its leaves were looked at{under}: "
+                "`PyTree[L]` would accept trees with leaves that do not match L (or claim a whole subtree as one leaf of an enclosing PyTree)", construct="early accept of an ordinary value")
+    else:
+        ctx.ok("C08.1", f.qualname, "no other early acceptance: an ordinary value reaches the leaf check on every path")
 
 
 # ------------------------------------------------------------------------ C08.2
@@ -208,6 +223,17 @@ def check_leaf_loop(ctx):
     defs = [a for a in walk_scope(f.node) if isinstance(a, ast.Assign) and any("leaves" in [norm(e) for e in (t.elts if isinstance(t, ast.Tuple) else [t])] for t in a.targets)]
     if not any(isinstance(a.value, ast.Call) and "tree_flatten" in norm(a.value.func) for a in defs):
         ctx.bad("C08.3", f, hdr.ast, "the loop does not run over the leaves produced by tree_flatten")
+    else:
+        # ... by the flatten of *this* value in *this* activation: a second source (a remembered flatten result read back from the class or a
+        # table) is stale as soon as the container was mutated in between -- leaves added since are never looked at
+        obj_p = f.params[1] if len(f.params) > 1 else "obj"
+        other = [a for a in defs if not (isinstance(a.value, ast.Call) and "tree_flatten" in norm(a.value.func) and a.value.args and norm(a.value.args[0]) == obj_p)
+                 and not (isinstance(a.value, ast.Constant) and a.value.value is None)]  # (`leaves = None` before a `with` / `try` is a placeholder, not a source)
+        if other:
+            ctx.bad("C08.3", f, other[0], f"the leaves that are checked can also come from `{short(other[0].value, 50)}`, not from flattening the value being checked in this call: "
+                    "a remembered flatten result misses leaves added to (or changed in) a mutable container since", construct="leaves not from this call's tree_flatten")
+        else:
+            ctx.ok("C08.3", f.qualname, "the checked leaves have one source: tree_flatten of the value, in this call")
     body_ids = g.reach_from([s for k, s in hdr.succ if k == "loop"][0], avoid=lambda n: n is hdr)
     checks = []
     for nid in body_ids:
